@@ -155,7 +155,10 @@ class Sem:
         if x < 0.78:
             self.ctr += 1
             i = "i%d" % self.ctr
-            return ["%s <- 0" % i, "REPEAT UNTIL (%s >= %s) {" % (i, r.choice(["0", "1", "2", "3"])), "%s <- %s + 1" % (i, i)] + \
+            cond = "%s >= %s" % (i, r.choice(["0", "1", "2", "3"]))
+            if r.random() < 0.5:      # the condition runs a procedure body (a block) every time it is tested
+                cond = "t(%s, %s)" % (self.lab(), cond)
+            return ["%s <- 0" % i, "REPEAT UNTIL (%s) {" % cond, "%s <- %s + 1" % (i, i)] + \
                 self.block(d, True, in_fn) + ["}"]
         if x < 0.86:
             v = r.choice(["x", "y", "a"])
@@ -180,7 +183,8 @@ class Sem:
         return r.choice([
             "APPEND(%s, %s)" % (l, v), "INSERT(%s, %s, %s)" % (l, i, v), "DISPLAY(REMOVE(%s, %s))" % (l, i),
             "%s[%s] <- %s" % (l, i, v), "DISPLAY(%s[%s])" % (l, i), "DISPLAY(LENGTH(%s))" % l,
-            "%s <- %s + %s" % (r.choice(self.lists), r.choice(self.lists), r.choice(self.lists + ["[0]"])),
+            "%s <- %s + %s" % (r.choice(self.lists), r.choice(self.lists), r.choice(self.lists + ["[0]", "[]"])),
+            "%s <- [] + %s" % (r.choice(self.lists), r.choice(self.lists)),
             "%s <- %s" % (r.choice(self.lists), r.choice(self.lists)), "%s <- [%s, %s]" % (l, v, v), "DISPLAY(%s)" % l])
 
     def procdecl(self, d):
